@@ -32,6 +32,10 @@ type polCase struct {
 	// OpCase != 0: the operation names handed to the compiler are written in another letter case (seeded by this
 	// value); the compiler may refuse them, but if it accepts them they must mean the documented operation
 	OpCase uint64 `json:"op_case,omitempty"`
+	// Foreign: a name that is a syscall of another architecture but not of the policy's is added to one group of the
+	// policy handed to the compiler. The compiler should refuse it (C07); if it accepts the policy, the name lists no
+	// syscall number of this architecture and every event is decided as if it were absent.
+	Foreign string `json:"foreign,omitempty"`
 }
 
 type compiled struct {
